@@ -64,6 +64,9 @@ Proof.
   intros Hl Hr. unfold Fpos. rewrite <- pow2_add by (unfold zn; nia). f_equal. ring.
 Qed.
 
+(* interval form of a magnitude bound: friendlier to lia than Z.abs (no case split) *)
+Local Notation absl H := (proj2 (Z.abs_le _ _) H).
+
 Theorem cross_inner_specW : forall (fuel : nat) (s : cstate),
   preW s -> c_atake s <= Z.of_nat fuel ->
   post s (fst (cross_inner wd fuel rb ab a_limb s)) (snd (cross_inner wd fuel rb ab a_limb s)).
@@ -72,48 +75,53 @@ Proof.
   { destruct Hpre as (_ & _ & Ha & _). lia. }
   destruct Hpre as (Hsh & Hr & Ha & Hn & Hc & Hrc & Hal).
   destruct Hsh as (Sl & Sr & Sz & Sb).
+  apply Z.abs_le in Hn, Hc, Sb.
   cbn [cross_inner]. unfold post.
   set (w := Z.min (Z.min ab (c_atake s)) (c_racc s)).
   assert (Hw : 1 <= w /\ w <= c_atake s /\ w <= c_racc s /\ (w = c_atake s \/ w = c_racc s))
-    by (unfold w; lia).
-  destruct (Z.eqb_spec w 0) as [E|_]; [lia|].
+    by (unfold w; clear - Ha Hr Hab; lia).
+  destruct (Z.eqb_spec w 0) as [E|_]; [clear - E Hw; lia|].
+  clearbody w.
   set (scale := rb - c_racc s).
-  set (r := nthZ (c_res s) (c_rlimb s)).
+  set (r := nthZ (c_res s) (c_rlimb s)) in *.
+  assert (HM2 : 2 <= 2 ^ (wd - 2)).
+  { assert (2 ^ 1 <= 2 ^ (wd - 2)) by (apply pow2_le_mono; lia). exact H. }
   assert (Hn62 : Z.abs (c_anorm s) <= 2 ^ (wd - 2)).
-  { assert (2 ^ c_atake s <= 2 ^ (wd - 2)) by (apply pow2_le_mono; lia). lia. }
-  destruct (extractW wd w scale r (c_anorm s) Hwd ltac:(lia) ltac:(unfold scale; lia) ltac:(unfold scale; lia)
-              Hn62 Sb) as [Ex Hrb'].
-  rewrite Ex. clear Ex.
+  { assert (2 ^ c_atake s <= 2 ^ (wd - 2)) by (apply pow2_le_mono; lia). apply Z.abs_le. clear - H Hn. lia. }
+  destruct (extractW wd w scale r (c_anorm s) Hwd ltac:(clear - Hw; lia) ltac:(unfold scale; clear - Hr; lia)
+              ltac:(unfold scale; clear - Hw Hrb; lia) Hn62 (absl Sb)) as [Ex Hrb'].
+  rewrite Ex. clear Ex Hn62.
   set (d := wrap w (c_anorm s)) in *. set (n1 := bdiv w (c_anorm s)).
-  pose proof (wrap_bdiv w (c_anorm s) ltac:(lia)) as Hdec. fold d n1 in Hdec.
-  pose proof (wrap_range w (c_anorm s) ltac:(lia)) as Hdr. fold d in Hdr.
-  assert (Hn1 : Z.abs n1 <= 2 ^ (c_atake s - w)) by (apply rest_bound; lia).
+  pose proof (wrap_bdiv w (c_anorm s) ltac:(clear - Hw; lia)) as Hdec. fold d n1 in Hdec.
+  pose proof (wrap_range w (c_anorm s) ltac:(clear - Hw; lia)) as Hdr. fold d in Hdr.
+  assert (Hn1 : Z.abs n1 <= 2 ^ (c_atake s - w)) by (apply rest_bound; [clear - Hw; lia|exact (absl Hn)]).
+  clearbody d n1.
   cbn [c_res c_anorm c_acarry c_rcarry c_atake c_racc c_rlimb].
   set (atake1 := c_atake s - w). set (racc1 := c_racc s - w).
   set (res1 := upd (c_res s) (c_rlimb s) (r + d * 2 ^ scale)).
   assert (Hz : 0 <= atake1 /\ 0 <= racc1 /\ (atake1 = 0 \/ racc1 = 0) /\ atake1 < c_atake s)
-    by (unfold atake1, racc1; lia).
+    by (unfold atake1, racc1; clear - Hw; lia).
   assert (L1 : length res1 = rsz) by (unfold res1; rewrite upd_length; exact Sl).
+  pose proof (Fpos_nonnegW s Sr ltac:(clear - Hr; lia)) as HF0.
   assert (V1 : Vres res1 = Vres (c_res s) + 2 ^ Fpos s * d).
   { unfold res1. rewrite Vres_upd by auto. fold r.
-    rewrite <- (weight_atW s Sr ltac:(lia)). fold scale. ring. }
+    rewrite <- (weight_atW s Sr ltac:(clear - Hr; lia)). fold scale. ring. }
   assert (N1r : nthZ res1 (c_rlimb s) = r + d * 2 ^ scale).
-  { unfold res1. rewrite nth_upd, Sl. destruct (Nat.eqb_spec (c_rlimb s) (c_rlimb s)); [|lia].
-    destruct (Nat.ltb_spec (c_rlimb s) rsz); [reflexivity|lia]. }
+  { unfold res1. rewrite nth_upd, Sl. rewrite Nat.eqb_refl.
+    destruct (Nat.ltb_spec (c_rlimb s) rsz) as [_|Hge]; [reflexivity|clear - Hge Sr; lia]. }
   assert (N1z : forall i, (i < c_rlimb s)%nat -> nthZ res1 i = 0).
-  { intros i Hi. unfold res1. rewrite nth_upd. destruct (Nat.eqb_spec i (c_rlimb s)); [lia|].
+  { intros i Hi. unfold res1. rewrite nth_upd. destruct (Nat.eqb_spec i (c_rlimb s)) as [Ei|_]; [clear - Ei Hi; lia|].
     cbn [andb]. apply Sz; exact Hi. }
-  assert (Esw : scale + w = rb - racc1) by (unfold scale, racc1; lia).
+  assert (Esw : scale + w = rb - racc1) by (unfold scale, racc1; ring).
   (* facts shared by the InnerDone exits: all atake bits consumed *)
   assert (Hdone : atake1 = 0 ->
     c_anorm s = d + 2 ^ c_atake s * n1 /\ Z.abs d <= 2 ^ c_atake s - 1 /\ Z.abs n1 <= 1).
-  { intros E0. assert (Ew : w = c_atake s) by (unfold atake1 in E0; lia).
-    rewrite <- Ew. split; [symmetry; exact Hdec|]. split; [apply bal_abs; [lia|exact Hdr]|].
-    replace (c_atake s - w) with 0 in Hn1 by lia. exact Hn1. }
+  { intros E0. assert (Ew : w = c_atake s) by (unfold atake1 in E0; clear - E0; lia).
+    rewrite <- Ew. split; [symmetry; exact Hdec|]. split; [apply bal_abs; [clear - Hw; lia|exact Hdr]|].
+    replace (c_atake s - w) with 0 in Hn1 by (clear - Ew; lia). exact Hn1. }
   assert (Hwadd : atake1 = 0 -> wadd wd (c_acarry s) n1 = c_acarry s + n1).
-  { intros E0. destruct (Hdone E0) as (_ & _ & Hb1). unfold wadd. apply wrap_id; [lia|].
-    unfold in_range. rewrite (pow_wd1 wd Hwd).
-    assert (2 ^ 1 <= 2 ^ (wd - 2)) by (apply pow2_le_mono; lia). change (2 ^ 1) with 2 in *. lia. }
+  { intros E0. destruct (Hdone E0) as (_ & _ & Hb1). apply Z.abs_le in Hb1. unfold wadd. apply wrap_id; [lia|].
+    unfold in_range. rewrite (pow_wd1 wd Hwd). clear - Hb1 Hc HM2. lia. }
   destruct ((racc1 =? 0) || Nat.eqb a_limb 0)%bool eqn:Eb.
   - destruct (Nat.eqb a_limb 0 && (atake1 =? 0))%bool eqn:Ec.
     + (* the last a-limb is consumed: by alignment the res limbs are full *)
@@ -122,58 +130,57 @@ Proof.
       specialize (Hal Ea0).
       assert (Hfull : c_rlimb s = 0%nat /\ racc1 = 0).
       { destruct (full_pos (zn rsz) (zn (c_rlimb s)) rb racc1) as [Q1 Q2];
-          [unfold zn; lia|lia|lia|unfold Fpos in Hal; unfold atake1, racc1 in *; lia|].
-        split; [unfold zn in Q1; lia|exact Q2]. }
+          [unfold zn; clear; lia|clear - Hrb; lia|clear - Hz; lia|
+           unfold C08CrossInner.Fpos in Hal; unfold atake1, racc1 in *; clear - Hal Et0; lia|].
+        split; [unfold zn in Q1; clear - Q1; lia|exact Q2]. }
       destruct Hfull as [Hrl0 Hr0].
-      destruct (Z.eqb_spec racc1 0) as [_|]; [|lia].
-      set (x0 := nthZ res1 (c_rlimb s)).
+      destruct (Z.eqb_spec racc1 0) as [_|Hne]; [|clear - Hne Hr0; lia].
+      set (x0 := nthZ res1 (c_rlimb s)) in *.
       assert (Hx0 : Z.abs x0 <= 2 ^ (wd - 2)).
-      { unfold x0. rewrite N1r. assert (2 ^ (scale + w) <= 2 ^ (wd - 2)) by (apply pow2_le_mono; unfold scale; lia). lia. }
-      unfold middle_step_assign. rewrite (mcW wd rb Hrb 0 x0 (c_rcarry s)); [|lia|exact Hx0|rewrite Hrc; pose proof (pow2_pos (wd - 2) ltac:(lia)); cbn [Z.abs]; lia].
+      { rewrite N1r. assert (H1 : 2 ^ (scale + w) <= 2 ^ (wd - 2)) by (apply pow2_le_mono; unfold scale; clear - Hw Hr Hrb; lia).
+        clear - H1 Hrb'. lia. }
+      unfold middle_step_assign.
+      rewrite (mcW wd rb Hrb 0 x0 (c_rcarry s)); [|clear - Hrb; lia|exact Hx0|rewrite Hrc; clear - HM2; cbn [Z.abs]; lia].
       cbn [fst snd c_res]. split; [discriminate|]. split; [discriminate|]. intros _.
       split; [clear - Hal; lia|]. split; [rewrite upd_length; exact L1|].
       rewrite Hrc, Z.pow_0_r, Z.mul_1_r, Z.add_0_r.
       exists (- n1 - bdiv rb x0).
-      rewrite Vres_upd by (auto; lia). fold x0. rewrite V1.
-      pose proof (wrap_bdiv rb x0 ltac:(lia)) as Hdx.
-      assert (Ew : w = c_atake s) by (unfold atake1 in Et0; lia).
-      pose proof (Fpos_nonnegW s Sr ltac:(lia)) as HF0.
+      rewrite Vres_upd by (auto; clear - Sr; lia). fold x0. rewrite V1.
+      pose proof (wrap_bdiv rb x0 ltac:(clear - Hrb; lia)) as Hdx.
+      assert (Ew : w = c_atake s) by (unfold atake1 in Et0; clear - Et0; lia).
       assert (EF : 2 ^ Fpos s * 2 ^ w = 2 ^ (zn rsz * rb)).
-      { rewrite <- pow2_add by lia. f_equal. lia. }
+      { rewrite <- pow2_add by (clear - HF0 Hw; lia). f_equal. clear - Hal Ew. lia. }
       assert (EW : 2 ^ (zn rsz * rb) = 2 ^ rb * 2 ^ ((zn rsz - 1 - zn (c_rlimb s)) * rb)).
       { rewrite Hrl0. change (zn 0) with 0.
-        assert (HR1 : 0 <= zn rsz - 1 - 0) by (unfold zn; lia).
-        rewrite <- pow2_add; [f_equal; ring|lia|apply Z.mul_nonneg_nonneg; lia]. }
+        assert (HR1 : 0 <= zn rsz - 1 - 0) by (unfold zn; clear - Sr; lia).
+        rewrite <- pow2_add; [f_equal; ring|clear - Hrb; lia|apply Z.mul_nonneg_nonneg; [exact HR1|clear - Hrb; lia]]. }
       set (W := 2 ^ ((zn rsz - 1 - zn (c_rlimb s)) * rb)) in *.
-      replace (wrap rb x0 - x0) with (- 2 ^ rb * bdiv rb x0) by lia.
+      replace (wrap rb x0 - x0) with (- 2 ^ rb * bdiv rb x0) by (clear - Hdx; lia).
       rewrite <- Hdec.
       replace (2 ^ Fpos s * (d + 2 ^ w * n1)) with (2 ^ Fpos s * d + (2 ^ Fpos s * 2 ^ w) * n1) by ring.
       rewrite EF, EW. ring.
-    + destruct (Nat.eqb_spec (c_rlimb s) 0) as [Erl|Erl].
+    + assert (Hr0 : racc1 = 0).
+      { destruct (Z.eqb_spec racc1 0) as [|Hne]; [assumption|]. cbn [orb] in Eb.
+        apply Nat.eqb_eq in Eb. rewrite Eb in Ec. cbn [andb] in Ec. apply Z.eqb_neq in Ec. clear - Ec Hz Hne. lia. }
+      destruct (Nat.eqb_spec (c_rlimb s) 0) as [Erl|Erl].
       * (* res is full *)
         cbn [fst snd c_res c_anorm]. split; [discriminate|]. split; [discriminate|]. intros _.
-        assert (Hr0 : racc1 = 0).
-        { destruct (Z.eqb_spec racc1 0) as [|Hne]; [assumption|]. cbn [orb] in Eb.
-          apply Nat.eqb_eq in Eb. rewrite Eb in Ec. cbn [andb] in Ec. apply Z.eqb_neq in Ec. lia. }
-        pose proof (Fpos_nonnegW s Sr ltac:(lia)) as HF0.
         assert (EFw : zn rsz * rb = Fpos s + w).
-        { unfold Fpos, racc1 in *. rewrite Erl. change (zn 0) with 0. lia. }
+        { unfold C08CrossInner.Fpos, racc1 in *. rewrite Erl. change (zn 0) with 0. clear - Hr0. lia. }
         split; [clear - EFw Hw; lia|]. split; [exact L1|].
         exists (- n1). rewrite V1.
         assert (EF : 2 ^ (zn rsz * rb) = 2 ^ Fpos s * 2 ^ w).
-        { rewrite <- pow2_add by lia. f_equal. exact EFw. }
+        { rewrite <- pow2_add by (clear - HF0 Hw; lia). f_equal. exact EFw. }
         rewrite EF. rewrite <- Hdec. ring.
       * (* move on to the next res limb *)
-        assert (Hr0 : racc1 = 0).
-        { destruct (Z.eqb_spec racc1 0) as [|Hne]; [assumption|]. cbn [orb] in Eb.
-          apply Nat.eqb_eq in Eb. rewrite Eb in Ec. cbn [andb] in Ec. apply Z.eqb_neq in Ec. lia. }
         cbn [c_res c_anorm c_acarry c_rcarry c_atake c_racc c_rlimb].
         set (s2 := {| c_res := res1; c_anorm := n1; c_acarry := c_acarry s; c_rcarry := c_rcarry s;
                       c_atake := atake1; c_racc := racc1 + rb; c_rlimb := (c_rlimb s - 1)%nat |}).
         assert (F2 : Fpos s2 = Fpos s + w).
-        { unfold Fpos, s2. cbn [c_rlimb c_racc]. unfold racc1, zn. rewrite Nat2Z.inj_sub by lia. cbn. ring. }
+        { unfold C08CrossInner.Fpos, s2. cbn [c_rlimb c_racc]. unfold racc1, zn.
+          rewrite Nat2Z.inj_sub by (clear - Erl; lia). change (Z.of_nat 1) with 1. ring. }
         assert (Sh2 : shape s2).
-        { unfold shape, s2. cbn [c_res c_rlimb c_racc]. split; [exact L1|]. split; [clear - Sr Erl; lia|].
+        { unfold C08CrossInner.shape, s2. cbn [c_res c_rlimb c_racc]. split; [exact L1|]. split; [clear - Sr Erl; lia|].
           split; [intros i Hi; apply N1z; clear - Hi Erl; lia|].
           rewrite N1z by (clear - Erl; lia). rewrite Hr0. replace (rb - (0 + rb)) with 0 by (clear; lia).
           cbn. clear; lia. }
@@ -183,27 +190,28 @@ Proof.
            exists d. cbn [c_acarry c_res c_racc c_rcarry]. rewrite (Hwadd E0).
            replace (c_acarry s + n1 - c_acarry s) with n1 by ring.
            split; [exact D1|]. split; [exact D2|]. split; [exact V1|].
-           split; [change (Fpos s2 = Fpos s + c_atake s); rewrite F2; unfold atake1 in E0; lia|].
-           split; [exact Sh2|]. split; [lia|]. split; [exact Hrc|exact D3].
+           split; [change (Fpos s2 = Fpos s + c_atake s); rewrite F2; unfold atake1 in E0; clear - E0; lia|].
+           split; [exact Sh2|]. split; [clear - Hr0 Hrb; lia|]. split; [exact Hrc|exact D3].
         -- (* recursion *)
            assert (Hpre2 : preW s2).
            { unfold preW. split; [exact Sh2|]. unfold s2; cbn [c_racc c_atake c_anorm c_acarry c_rcarry].
-             split; [lia|]. split; [lia|]. split; [exact Hn1|]. split; [exact Hc|]. split; [exact Hrc|].
-             intros Ea0. fold s2. rewrite F2. specialize (Hal Ea0). unfold atake1. lia. }
-           destruct (IH s2 Hpre2 ltac:(unfold s2; cbn [c_atake]; lia)) as (P1 & P2 & P3).
+             split; [clear - Hr0 Hrb; lia|]. split; [clear - Hz E0 Ha; lia|]. split; [exact Hn1|]. split; [exact (absl Hc)|].
+             split; [exact Hrc|].
+             intros Ea0. fold s2. rewrite F2. specialize (Hal Ea0). unfold atake1. clear - Hal. lia. }
+           destruct (IH s2 Hpre2 ltac:(unfold s2; cbn [c_atake]; clear - Hz Hf; lia)) as (P1 & P2 & P3).
            fold s2. set (s' := fst (cross_inner wd f rb ab a_limb s2)) in *.
            set (o := snd (cross_inner wd f rb ab a_limb s2)) in *.
            assert (Ea : 2 ^ c_atake s = 2 ^ w * 2 ^ atake1)
-             by (rewrite <- pow2_add by lia; f_equal; unfold atake1; lia).
+             by (rewrite <- pow2_add by (clear - Hw Hz; lia); f_equal; unfold atake1; ring).
            assert (EF : 2 ^ Fpos s2 = 2 ^ Fpos s * 2 ^ w).
-           { rewrite F2. apply pow2_add; [|lia]. apply Fpos_nonnegW; [exact Sr|lia]. }
+           { rewrite F2. apply pow2_add; [exact HF0|clear - Hw; lia]. }
            split; [exact P1|]. split.
            ++ intros Ho. destruct (P2 Ho) as (Pi1 & Q1 & Q2 & Q3 & Q4 & Q5 & Q6 & Q7 & Q8).
               change (c_anorm s2) with n1 in Q1. change (c_atake s2) with atake1 in Q1, Q2.
               change (c_acarry s2) with (c_acarry s) in Q1, Q8. change (c_res s2) with res1 in Q3.
               exists (d + 2 ^ w * Pi1).
               split; [rewrite Ea; rewrite <- Hdec, Q1; ring|].
-              split; [rewrite Ea; apply pieces_bound; [lia|lia|exact Hdr|exact Q2]|].
+              split; [rewrite Ea; apply pieces_bound; [clear - Hw; lia|clear - Hz; lia|exact Hdr|exact Q2]|].
               split; [rewrite Q3, V1, EF; ring|].
               split; [rewrite Q4, F2; change (c_atake s2) with atake1; unfold atake1; ring|].
               split; [exact Q5|]. split; [exact Q6|]. split; [exact Q7|exact Q8].
@@ -214,17 +222,17 @@ Proof.
               exists K. rewrite Q, V1, EF. rewrite <- Hdec. ring.
   - (* the res limb is not full and more a-limbs follow: this a-limb is exhausted *)
     apply Bool.orb_false_iff in Eb. destruct Eb as [Eb _]. apply Z.eqb_neq in Eb.
-    destruct (Z.eqb_spec atake1 0) as [E0|E0]; [|lia].
+    destruct (Z.eqb_spec atake1 0) as [E0|E0]; [|clear - E0 Eb Hz; lia].
     cbn [fst snd]. split; [discriminate|]. split; [|discriminate]. intros _.
     destruct (Hdone E0) as (D1 & D2 & D3).
     exists d. cbn [c_acarry c_res c_racc c_rcarry c_rlimb]. rewrite (Hwadd E0).
     replace (c_acarry s + n1 - c_acarry s) with n1 by ring.
     split; [exact D1|]. split; [exact D2|]. split; [exact V1|].
-    split; [unfold Fpos; cbn [c_rlimb c_racc]; unfold racc1, atake1 in *; lia|].
+    split; [unfold C08CrossInner.Fpos; cbn [c_rlimb c_racc]; unfold racc1, atake1 in *; clear - E0; lia|].
     split.
-    { unfold shape. cbn [c_res c_rlimb c_racc]. split; [exact L1|]. split; [exact Sr|].
+    { unfold C08CrossInner.shape. cbn [c_res c_rlimb c_racc]. split; [exact L1|]. split; [exact Sr|].
       split; [exact N1z|]. rewrite N1r, <- Esw. exact Hrb'. }
-    split; [lia|]. split; [exact Hrc|exact D3].
+    split; [clear - Eb Hz Hw Hr; unfold racc1 in *; lia|]. split; [exact Hrc|exact D3].
 Qed.
 
 End Inner.
